@@ -22,10 +22,13 @@
 (* input classes of the open findings F10 (the ABS variants of the float   *)
 (* ladders compare signed significands in the exact step) and F28 (zero    *)
 (* against a primitive float below 1/2: the bit-length filter fires before *)
-(* zero is recognised).                                                    *)
+(* zero is recognised) and F70 (IBig against an infinity of its own sign:  *)
+(* `-sign * Less`).                                                        *)
 (***************************************************************************)
 EXTENDS Integers, Sequences, FiniteSets, TLC
-CONSTANTS Slack, FixAbs, FixZero, MaxNum, Variants
+CONSTANTS Slack, FixAbs, FixZero, FixInf, MaxNum, Variants
+\* exponent value standing for an infinite primitive float <<+-1, InfExp>>
+InfExp == 99
 
 \* ------------------------------------------------------------------ small exact arithmetic
 Pow2T == <<1, 2, 4, 8, 16, 32, 64, 128, 256, 512, 1024, 2048, 4096, 8192, 16384, 32768>>
@@ -85,7 +88,7 @@ ReprVsRepr(x, y, bx, by) == RatioVsOther(FALSE, x, y, bx, by)
 (* integer num_order.rs: UBig/IBig (x, integer) against a primitive float y = m * 2^e (m # 0 handled
    by step 0; NaN and infinities are separate steps not modelled here).  MaxBits stands for
    MANTISSA_DIGITS + MAX_EXP. *)
-IntVsPrimFloat(x, m, e) ==
+IntVsPrimFloat(ibig, x, m, e) ==
   LET y == IF e >= 0 THEN R(m * P2(e), 1) ELSE R(m, P2(-e)) IN
   IF m = 0 THEN (IF x = 0 THEN 0 ELSE Sgn(x))                              \* step 0 (*other == 0.)
   ELSE IF x >= 0 /\ m < 0 THEN 1                                            \* step 1
@@ -93,7 +96,8 @@ IntVsPrimFloat(x, m, e) ==
   ELSE LET neg == x < 0
            xb == BitLen(x)
            yb == BitLen(m) + e
-       IN IF FixZero /\ x = 0 THEN -1                                        \* repaired: 0 < positive float
+       IN IF e = InfExp THEN (IF ibig /\ ~FixInf THEN Times(~neg, -1) ELSE Times(neg, -1))   \* step 2: IBig has `-sign * Less`
+          ELSE IF FixZero /\ x = 0 THEN -1                                   \* repaired: 0 < positive float
           ELSE IF yb < 0 THEN Times(neg, 1)                                 \* step 4
           ELSE IF xb > yb THEN Times(neg, 1)
           ELSE IF xb < yb THEN Times(neg, -1)
@@ -113,7 +117,8 @@ ReprVsPrimFloat(B, sig, ex, m, e) ==
            lb == IF ex >= 0 THEN l2 - ex ELSE l2
            ub == IF ex >= 0 THEN l2 ELSE l2 - ex
            ol == BitLen(m) + e
-       IN IF FixZero /\ sig = 0 THEN -1
+       IN IF e = InfExp THEN Times(neg, -1)                                 \* step 2: (false, true) => sign * Less
+          ELSE IF FixZero /\ sig = 0 THEN -1
           ELSE IF lb > ol THEN Times(neg, 1)
           ELSE IF ub < ol THEN Times(neg, -1)
           ELSE Cmp(x, y)
@@ -121,7 +126,8 @@ ReprVsPrimFloat(B, sig, ex, m, e) ==
 (* rational num_order.rs: Repr (x = n/d) against a primitive float y = m * 2^e *)
 RatioVsPrimFloat(x, m, e) ==
   LET y == IF e >= 0 THEN R(m * P2(e), 1) ELSE R(m, P2(-e)) IN
-  IF m = 0 THEN (IF x.n = 0 THEN 0 ELSE Sgn(x.n))
+  IF e = InfExp THEN (IF m > 0 THEN -1 ELSE 1)                              \* step 1: infinity by its sign
+  ELSE IF m = 0 THEN (IF x.n = 0 THEN 0 ELSE Sgn(x.n))
   ELSE IF x.n >= 0 /\ m < 0 THEN 1
   ELSE IF x.n < 0 /\ m > 0 THEN -1
   ELSE LET neg == x.n < 0
@@ -135,7 +141,7 @@ RatioVsPrimFloat(x, m, e) ==
 \* ------------------------------------------------------------------ scope
 Ints == {R(n, 1) : n \in -MaxNum..MaxNum}
 Rats == {R(n, d) : n \in -MaxNum..MaxNum, d \in {1, 2, 3, 4, 8}}
-PrimFloats == {<<m, e>> : m \in -7..7, e \in -5..3}
+PrimFloats == {<<m, e>> : m \in -7..7, e \in -5..3} \cup {<<1, InfExp>>, <<-1, InfExp>>}
 \* (a zero float always has exponent 0: Repr::new normalises)
 Floats == {f \in {<<B, s, ex>> : B \in {2, 3, 10}, s \in -9..9, ex \in -2..2} : f[2] = 0 => f[3] = 0}
 
@@ -145,7 +151,7 @@ vars == <<phase, v, abs, x, y, bx, by, res, exact>>
 \* x, y are records [n, d] for the abstract-bound ladders; for the primitive-float ladders y = <<m, e>>
 \* and (ReprVsPrimFloat) x = <<B, sig, ex>>
 Init == /\ phase = "pick" /\ v \in Variants /\ abs \in BOOLEAN
-        /\ (v \in {"ReprVsRepr", "IntVsPrimFloat", "ReprVsPrimFloat", "RatioVsPrimFloat"} => ~abs)
+        /\ (v \in {"ReprVsRepr", "UBigVsPrimFloat", "IBigVsPrimFloat", "ReprVsPrimFloat", "RatioVsPrimFloat"} => ~abs)
         /\ x = 0 /\ y = 0 /\ bx = <<0, 0>> /\ by = <<0, 0>> /\ res = 0 /\ exact = 0
 PickOperands ==
   /\ phase = "pick" /\ phase' = "bounds"
@@ -155,7 +161,8 @@ PickOperands ==
        [] v = "RatioVsIBig" -> x' \in Rats /\ y' \in Ints
        [] v = "RatioVsFBig" -> x' \in Rats /\ y' \in Rats
        [] v = "ReprVsRepr" -> x' \in Rats /\ y' \in Rats
-       [] v = "IntVsPrimFloat" -> x' \in Ints /\ y' \in PrimFloats
+       [] v = "UBigVsPrimFloat" -> x' \in {r \in Ints : r.n >= 0} /\ y' \in PrimFloats
+       [] v = "IBigVsPrimFloat" -> x' \in Ints /\ y' \in PrimFloats
        [] v = "ReprVsPrimFloat" -> x' \in Floats /\ y' \in PrimFloats
        [] v = "RatioVsPrimFloat" -> x' \in Rats /\ y' \in PrimFloats
   /\ UNCHANGED <<v, abs, bx, by, res, exact>>
@@ -181,24 +188,30 @@ LadderReprVsRepr ==
   /\ v = "ReprVsRepr" /\ phase = "bounds"
   /\ \E b1 \in Bounds(x), b2 \in Bounds(y) :
        /\ bx' = b1 /\ by' = b2 /\ Run(v, ReprVsRepr(x, y, b1, b2), Cmp(x, y))
-LadderIntVsPrimFloat ==
-  /\ UNCHANGED <<bx, by>> /\ Run("IntVsPrimFloat", IntVsPrimFloat(x.n, y[1], y[2]), Cmp(x, PrimVal(y)))
+\* exact order against a primitive float, infinities included
+CmpPrim(xq, p) == IF p[2] = InfExp THEN (IF p[1] > 0 THEN -1 ELSE 1) ELSE Cmp(xq, PrimVal(p))
+LadderUBigVsPrimFloat ==
+  /\ UNCHANGED <<bx, by>> /\ Run("UBigVsPrimFloat", IntVsPrimFloat(FALSE, x.n, y[1], y[2]), CmpPrim(x, y))
+LadderIBigVsPrimFloat ==
+  /\ UNCHANGED <<bx, by>> /\ Run("IBigVsPrimFloat", IntVsPrimFloat(TRUE, x.n, y[1], y[2]), CmpPrim(x, y))
 LadderReprVsPrimFloat ==
   /\ UNCHANGED <<bx, by>>
-  /\ Run("ReprVsPrimFloat", ReprVsPrimFloat(x[1], x[2], x[3], y[1], y[2]), Cmp(FloatVal(x), PrimVal(y)))
+  /\ Run("ReprVsPrimFloat", ReprVsPrimFloat(x[1], x[2], x[3], y[1], y[2]), CmpPrim(FloatVal(x), y))
 LadderRatioVsPrimFloat ==
-  /\ UNCHANGED <<bx, by>> /\ Run("RatioVsPrimFloat", RatioVsPrimFloat(x, y[1], y[2]), Cmp(x, PrimVal(y)))
+  /\ UNCHANGED <<bx, by>> /\ Run("RatioVsPrimFloat", RatioVsPrimFloat(x, y[1], y[2]), CmpPrim(x, y))
 Next == PickOperands \/ LadderFloatVsInt \/ LadderRatioVsOther \/ LadderReprVsRepr
-        \/ LadderIntVsPrimFloat \/ LadderReprVsPrimFloat \/ LadderRatioVsPrimFloat
+        \/ LadderUBigVsPrimFloat \/ LadderIBigVsPrimFloat \/ LadderReprVsPrimFloat \/ LadderRatioVsPrimFloat
 Spec == Init /\ [][Next]_vars
 
 \* ------------------------------------------------------------------ definition and finding classes
 \* F10: an ABS comparison of a float with an integer where a sign is negative and the filter does not decide
 KnownF10 == ~FixAbs /\ abs /\ v \in {"FloatVsUBig", "FloatVsIBig"} /\ (x.n < 0 \/ y.n < 0)
 \* F28: zero against a primitive float in (0, 1/2)  (in (0, 1/4) for the rational ladder)
-KnownF28 == /\ ~FixZero /\ v \in {"IntVsPrimFloat", "ReprVsPrimFloat", "RatioVsPrimFloat"}
-            /\ y[1] > 0 /\ Cmp(PrimVal(y), R(1, 2)) < 0
+KnownF28 == /\ ~FixZero /\ v \in {"UBigVsPrimFloat", "IBigVsPrimFloat", "ReprVsPrimFloat", "RatioVsPrimFloat"}
+            /\ y[1] > 0 /\ y[2] # InfExp /\ Cmp(PrimVal(y), R(1, 2)) < 0
             /\ (IF v = "ReprVsPrimFloat" THEN x[2] = 0 ELSE x.n = 0)
-LadderAgreesWithExactOrder == phase = "done" => (res = exact \/ KnownF10 \/ KnownF28)
+\* F70: a (non-negative) IBig against +infinity, a negative IBig against -infinity
+KnownF70 == ~FixInf /\ v = "IBigVsPrimFloat" /\ y[2] = InfExp /\ (x.n < 0) = (y[1] < 0)
+LadderAgreesWithExactOrder == phase = "done" => (res = exact \/ KnownF10 \/ KnownF28 \/ KnownF70)
 LadderStrict == phase = "done" => res = exact
 =============================================================================
